@@ -1,10 +1,92 @@
-import Martian.Util
-/-! STUB — property C06 is not built yet. -/
+import Martian.Model.Mitm
 namespace Martian.Drv.C06
-open Martian
+open Martian Martian.Go Martian.Mitm
 
-abbrev St := Unit
-def init : St := ()
-def step (s : St) (_toks : List String) : St × String := (s, "bad-op")
+/-- Driver state: configuration, cache, logical clock (ms). -/
+structure St where
+  cfg : Config
+  st : State
+  now : Int
+
+/-- Defaults of `mitm.NewConfig`: one hour, "Martian Proxy". The clock starts mid-second. -/
+def init : St := { cfg := { validity := 3600000, org := strBytes "Martian Proxy" }, st := {}, now := 1700000000400 }
+
+def showCert (base : Nat) (c : Cert) : String :=
+  let san := match c.names, c.ips with
+    | [n], [] => s!"dns:{hex n}"
+    | [], [ip] => s!"ip:{hex ip}"
+    | _, _ => "san:other"
+  let fresh := if c.serial ≥ base then "fresh" else "cached"
+  s!"cert {c.serial} {fresh} {san} org:{hex c.org} span:{(c.notAfter - c.notBefore) / 2000}"
+
+def showOutcome (base : Nat) : Outcome → String
+  | .refused => "refused"
+  | .served c _ => showCert base c
+
+/-- Hosts the model speaks about: ASCII (x509 refuses non-IA5 DNS names; not modelled). -/
+def inModel (h : Bytes) : Bool := isAscii h
+
+def unhexList (s : String) : Option (List Bytes) :=
+  if s = "-" then some [] else (s.splitOn ",").mapM unhex
+
+/-- Concurrent requesters, observed after all have returned: any interleaving hands each requester a
+certificate for its own host; the harness identifies the certificates issued for one host within the
+op, so the sequential order is the canonical schedule. -/
+def concOp (s : St) (hosts : List Bytes) : St × List Outcome :=
+  hosts.foldl (fun (acc : St × List Outcome) h =>
+    let r := getCertForHost acc.1.cfg h [] acc.1.now acc.1.st
+    ({ acc.1 with st := r.1 }, acc.2 ++ [r.2])) (s, [])
+
+def step (s : St) (toks : List String) : St × String :=
+  match toks with
+  | ["validity", secs] =>
+    match secs.toNat? with
+    | some n => ({ s with cfg := { s.cfg with validity := (n : Int) * 1000 } }, "ok")
+    | none => (s, "bad-op")
+  | ["org", o] =>
+    match unhex o with
+    | some ob => ({ s with cfg := { s.cfg with org := ob } }, "ok")
+    | none => (s, "bad-op")
+  | ["expire"] => ({ s with now := s.now + 3000 }, "ok")
+  | [op, mode, fb, sni] =>
+    if op ≠ "get" ∧ op ≠ "hs" then (s, "bad-op") else
+    match unhex fb, unhex sni with
+    | some fbb, some snb =>
+      if !(inModel fbb && inModel snb) then (s, "out-of-model") else
+      let pre := if op = "hs" then "hs " else ""
+      let now := s.now + 1
+      if mode = "tls" then
+        let r := getCertTLS s.cfg snb now s.st
+        ({ s with st := r.1, now := now }, pre ++ showOutcome s.st.next r.2)
+      else if mode = "host" then
+        let r := getCertForHost s.cfg fbb snb now s.st
+        ({ s with st := r.1, now := now }, pre ++ showOutcome s.st.next r.2)
+      else (s, "bad-op")
+    | _, _ => (s, "bad-op")
+  | ["conc", hs] =>
+    match unhexList hs with
+    | some hosts =>
+      if !(hosts.all inModel) then (s, "out-of-model") else
+      let s1 := { s with now := s.now + 1 }
+      let r := concOp s1 hosts
+      (r.1, "conc " ++ ";".intercalate (r.2.map (showOutcome s.st.next)))
+    | none => (s, "bad-op")
+  | ["shp", h] =>
+    match unhex h with
+    | some hb =>
+      if !isAscii hb then (s, "out-of-model") else
+      match splitHostPort hb with
+      | some (a, p) => (s, s!"shp ok {hex a} {hex p}")
+      | none => (s, "shp err")
+    | none => (s, "bad-op")
+  | ["parseip", h] =>
+    match unhex h with
+    | some hb =>
+      if !isAscii hb then (s, "out-of-model") else
+      match parseIP hb with
+      | some ip => (s, s!"ip {hex ip}")
+      | none => (s, "ip none")
+    | none => (s, "bad-op")
+  | _ => (s, "bad-op")
 
 end Martian.Drv.C06
